@@ -148,27 +148,95 @@ Definition hop_ok (o : hop) : Prop :=
   | HFiller s _ => 0 <= s < 4294967296
   end.
 
+(* the model's encoding observation, spelled out *)
+Lemma enc_dec_model v src off p num denom reads pret dreads dpret :
+  0 <= v < 256 -> 0 <= src < 4294967296 -> binv v src off p ->
+  exists bs p',
+    model_enc p num denom reads pret dreads dpret
+    = Ok {| b_acc := observe_packet p reads pret; b_bytes := Ok bs;
+            b_dec := ODOk (zlen bs) (observe_packet p' dreads dpret) |} /\
+    roundtrip_facts v src off p p'.
+Proof.
+  intros Hv Hs I. unfold model_enc.
+  destruct (roundtrip v src off num denom p Hs I) as [bs [p' [Eb [Er RF]]]].
+  destruct (built_bytes v src off num denom p bs Hv I Eb) as [Bok Blen].
+  exists bs, p'. rewrite Eb. replace (zlen bs >? 16384) with false by lia.
+  unfold observe_decode. rewrite Er. split; [reflexivity|assumption].
+Qed.
+
+Lemma opt_zlist_refl o : opt_eqb zlist_eqb o o = true.
+Proof. destruct o; cbn [opt_eqb]; [apply zlist_eqb_refl|reflexivity]. Qed.
+Lemma opt_z_refl o : opt_eqb Z.eqb o o = true.
+Proof. destruct o; cbn [opt_eqb]; [apply Z.eqb_refl|reflexivity]. Qed.
+
+(* the object holds what the caller asked for *)
+Definition xrel (p : packet) (e : expst) : Prop :=
+  shape p = x_shape e /\ pdat p = x_data e /\ timestamp_T p = x_ts e.
+
+Lemma bstep_xrel p o q e : bstep p o = Ok (q, false) -> xrel p e -> xrel q (exp_step e o).
+Proof.
+  intros B [X1 [X2 X3]]. destruct o as [t rid| | |d dims|t]; cbn [bstep] in B.
+  - apply Ok_inj in B. injection B as <-. repeat split; assumption.
+  - apply Ok_inj in B. injection B as <-. repeat split; assumption.
+  - apply Ok_inj in B. injection B as <-. repeat split. assumption.
+  - unfold new_data in B.
+    destruct ((zlen dims <? 1) || (zlen dims >? MAXDIMS)); [apply Ok_inj in B; discriminate|].
+    destruct (negb (dims_ok 1 dims)); [apply Ok_inj in B; discriminate|].
+    destruct (data_width d) as [[w vals]|]; [|apply Ok_inj in B; discriminate].
+    destruct (_ >? MAXPACKET); apply Ok_inj in B; [discriminate|].
+    injection B as <-. repeat split. assumption.
+  - apply Ok_inj in B. injection B as <-. unfold mut_ts, timestamp_T in *.
+    destruct (timestamp p) as [ts|] eqn:ET; cbn [exp_step x_shape x_data x_ts].
+    + rewrite <- X3. unfold xrel, timestamp_T. cbn [x_shape x_data x_ts]. repeat split; try assumption.
+    + rewrite <- X3. unfold xrel, timestamp_T. rewrite ET. cbn [x_shape x_data x_ts]. repeat split; assumption.
+Qed.
+
+Lemma payload_eqb_facts d' d :
+  (data_count d = 0 -> data_count d' = 0) -> (data_count d <> 0 -> d' = d) -> payload_eqb d' d = true.
+Proof.
+  intros R6 R7. unfold payload_eqb. destruct (data_count d =? 0) eqn:DZ.
+  - rewrite R6 by lia. reflexivity.
+  - rewrite R7 by lia. destruct d; cbn [pdata_eqb]; try reflexivity; apply zlist_eqb_refl.
+Qed.
+
+Lemma same_kind_count_count a b : same_kind_count a b = true -> data_count a = data_count b.
+Proof. destruct a, b; cbn; intros H; try discriminate; lia. Qed.
+
 Lemma hist_passes_checker v src off :
   0 <= v < 256 -> 0 <= src < 4294967296 ->
-  forall h p clean, (clean = true -> binv v src off p) -> Forall hop_ok (map fst h) ->
-  hist_check clean (combine (map fst h) (run_hist p h)) = true.
+  forall h p clean e, (clean = true -> binv v src off p /\ xrel p e) -> Forall hop_ok (map fst h) ->
+  hist_check clean e (combine (map fst h) (run_hist p h)) = true.
 Proof.
-  intros Hv Hs. induction h as [|[o x] h IH]; intros p clean I F; [reflexivity|].
+  intros Hv Hs. induction h as [|[o x] h IH]; intros p clean e I F; [reflexivity|].
   cbn [map fst] in F. inversion F as [|? ? F1 F2]; subst.
   destruct o as [o| |s n]; cbn [map fst run_hist].
-  - destruct (bstep_total p o) as [q [e E]]. rewrite E. cbn [combine hist_check].
-    replace (is_panic_ret (if e then BRErr else BRNil)) with false by (destruct e; reflexivity).
+  - destruct (bstep_total p o) as [q [er E]]. rewrite E. cbn [combine hist_check].
+    replace (is_panic_ret (if er then BRErr else BRNil)) with false by (destruct er; reflexivity).
     apply IH; [|assumption]. intros C. apply andb_true_iff in C as [C1 C2].
-    destruct e; [discriminate|]. eapply bstep_inv; eauto.
+    destruct er; [discriminate|]. destruct (I C1) as [I1 I2].
+    split; [eapply bstep_inv; eauto|eapply bstep_xrel; eauto].
   - destruct (oracle_of x) as [[num denom] b]. destruct (probes_of b) as [[[reads pret] dreads] dpret].
-    cbn [combine hist_check]. rewrite (IH p clean I F2), andb_true_r.
-    destruct clean; [|reflexivity]. apply (enc_ok_model v src off); auto.
+    cbn [combine hist_check]. rewrite (IH p clean e I F2), andb_true_r.
+    destruct clean; [|reflexivity]. destruct (I eq_refl) as [I1 [X1 [X2 X3]]].
+    rewrite (enc_ok_model v src off) by auto. cbn [andb].
+    destruct (enc_dec_model v src off p num denom reads pret dreads dpret Hv Hs I1)
+      as [bs [p' [-> [R1 [R2 [R3 [R4 [R5 [R6 [R7 R8]]]]]]]]]].
+    cbn [exp_ok b_dec observe_packet a_shape a_data a_ts].
+    rewrite R5, R8, X1, X3, opt_zlist_refl, opt_z_refl, <- X2, (payload_eqb_facts _ _ R6 R7). reflexivity.
   - destruct (oracle_of x) as [[num denom] b]. destruct (probes_of b) as [[[reads pret] dreads] dpret].
-    cbn [combine hist_check]. rewrite (IH p clean I F2), andb_true_r.
+    cbn [combine hist_check]. rewrite (IH p clean e I F2), andb_true_r.
     destruct (clean && negb (n =? 0)) eqn:C; [|reflexivity].
-    apply andb_true_iff in C as [C1 C2]. cbn [hop_ok] in F1.
-    destruct (pretend_binv v src off p s n (I C1) F1 ltac:(lia)) as [q [Eq [Iq _]]].
-    rewrite Eq. apply (enc_ok_model v src off); auto.
+    apply andb_true_iff in C as [C1 C2]. cbn [hop_ok] in F1. destruct (I C1) as [I1 [X1 [X2 X3]]].
+    destruct (pretend_binv v src off p s n I1 F1 ltac:(lia)) as [q [Eq [Iq [Q1 [Q2 [Q3 Q4]]]]]].
+    rewrite Eq. rewrite (enc_ok_model v src off) by auto. cbn [andb].
+    destruct (enc_dec_model v src off q num denom reads pret dreads dpret Hv Hs Iq)
+      as [bs [q' [-> [R1 [R2 [R3 [R4 [R5 [R6 [R7 R8]]]]]]]]]].
+    cbn [exp_ok_filler b_dec observe_packet a_shape a_data a_ts].
+    rewrite R5, R8, Q2, Q3, X1, X3, opt_zlist_refl, opt_z_refl, <- X2. cbn [andb]. rewrite andb_true_r.
+    unfold payload_like. pose proof (same_kind_count_count _ _ Q4) as CQ.
+    destruct (data_count (pdat p) =? 0) eqn:DZ.
+    + rewrite R6 by lia. reflexivity.
+    + rewrite R7 by lia. exact Q4.
 Qed.
 
 Theorem build_passes_checker_model : forall v src seq off h,
@@ -177,7 +245,7 @@ Theorem build_passes_checker_model : forall v src seq off h,
 Proof.
   intros v src seq off h Hv Hs Hq F. unfold build_check.
   apply (hist_passes_checker v src off Hv Hs); [|assumption].
-  intros _. now apply new_packet_inv.
+  intros _. split; [now apply new_packet_inv|]. repeat split.
 Qed.
 
 (* a filler packet made from any built packet round-trips: decode (Bytes q) gives q's sequence number,
